@@ -125,7 +125,9 @@ def source(spec):
       else:
         body.append("s.%s = %s(%s)" % (sg["name"], ctor, t))
     for sb in cd["subs"]:
-      if sb["dims"]:
+      if sb["dims"] and sb.get("cls_list"):
+        body.append("s.%s = [%s]" % (sb["name"], ", ".join("%s_%s()" % (cn, uid) for cn in sb["cls_list"])))
+      elif sb["dims"]:
         body.append("s.%s = [%s_%s() for _ in range(%d)]" % (sb["name"], sb["cls"], uid, sb["dims"][0]))
       else:
         body.append("s.%s = %s_%s()" % (sb["name"], sb["cls"], uid))
@@ -134,7 +136,7 @@ def source(spec):
         body.append("%s = %d" % (fr["name"], fr["v"]))
       else:
         body.append("%s = Bits%d(%d)" % (fr["name"], fr["w"], fr["v"]))
-    for it in cd["items"]:
+    for it in [x for x in cd["items"] if x["k"] != "constraint"] + [x for x in cd["items"] if x["k"] == "constraint"]:
       k = it["k"]
       if k == "connect":
         a = r_path(it["a"])
